@@ -153,6 +153,10 @@ def run (s : Scn) : Out :=
     let r := attempt s.cancel s.cancel s.kind a
     { posts := 1, auths := 0, toks := [false], end_ := r.1, conn := r.2 }
 
+/-- Close: the session is deleted on the server (HTTP DELETE) unless the connection failed with ErrSessionMissing —
+the server has already said that the session is gone -/
+def deleteAtClose (r : Out) : Bool := r.end_ != .err .gone
+
 /-- the scenario hypothesis: a `st` answer carries a status outside 2xx -/
 def ansOK : Ans → Bool
   | .st c _ => c < 200 || c ≥ 300
